@@ -1,4 +1,53 @@
-import StrumModel
+import StrumProofs.C01
+import StrumProofs.C03
+/-
+C02 — printing a variant and parsing the result returns the same variant.
+-/
 namespace Strum
-theorem c02_placeholder : True := trivial
+
+/-- with no prefix, the canonical (printed) name is one of the variant's own spellings:
+    the print side picks one name, the parse side lists all, both with the same `case_style` -/
+theorem canonical_mem_serializations (d : EnumDef) (hp : d.pfx = none) (v : Variant) :
+    canonical d v ∈ serializations d.style v := by
+  rw [← preferredName_eq_canonical, hp]
+  exact printed_mem_serializations d.style v
+
+/-- every spelling of a candidate variant parses back to that variant -/
+theorem serializations_roundtrip (d : EnumDef) (hphf : d.usePhf = false) (p : FromStrImpl)
+    (hg : genFromStr d = .ok p) (hno : NoOverlap d) (v : Variant) (hv : v ∈ d.candidates)
+    (sp : Bytes) (hsp : sp ∈ serializations d.style v) :
+    parse d sp = .ok (.ok v.ident (payloadOf v)) :=
+  parse_accepting d hphf p hg hno sp v hv (accepts_own_spelling d v sp hsp)
+
+/-- **Round trip.**  For an enum without prefix and any enabled, non-default, non-transparent
+    variant whose name has no placeholder: whatever string a string-producing derive returns for it
+    parses back to the same variant with defaulted payload. -/
+theorem roundtrip (d : EnumDef) (hphf : d.usePhf = false) (p : FromStrImpl)
+    (hg : genFromStr d = .ok p) (hno : NoOverlap d) (hp : d.pfx = none)
+    (hid : (d.variants.map (·.ident)).Nodup)
+    (v : Variant) (hv : v ∈ d.candidates) (ht : v.transparent = false)
+    (hb : NoPlaceholder (canonical d v)) (dv : NameDerive) (inner : Bytes) (o : ShowOut)
+    (ho : (if dv = .display then displayOut d v (fun _ => inner) {} else strOut d dv v inner) = .ok o) :
+    ∃ b, o = .text b ∧ parse d b = .ok (.ok v.ident (payloadOf v)) := by
+  have hvc := hv
+  unfold EnumDef.candidates at hv
+  simp only [List.mem_filter, Bool.and_eq_true, Bool.not_eq_eq_eq_not, Bool.not_true] at hv
+  obtain ⟨hmem, hen, hnd⟩ := hv
+  refine ⟨canonical d v, ?_, serializations_roundtrip d hphf p hg hno v hvc _ (canonical_mem_serializations d hp v)⟩
+  split at ho
+  · exact displayOut_canonical d hid v hmem hen ht hnd hb _ o ho
+  · exact strOut_canonical d hid v hmem hen ht hnd hb dv inner o ho
+
+/-- `EnumMessage::get_serializations` is generated from the same list as the `FromStr` arms
+    (enum_messages.rs:36-47): each returned string parses back -/
+def getSerializations (d : EnumDef) (v : Variant) : List Bytes := serializations d.style v
+
+theorem get_serializations_roundtrip (d : EnumDef) (hphf : d.usePhf = false) (p : FromStrImpl)
+    (hg : genFromStr d = .ok p) (hno : NoOverlap d) (v : Variant) (hv : v ∈ d.candidates) :
+    ∀ sp ∈ getSerializations d v, parse d sp = .ok (.ok v.ident (payloadOf v)) :=
+  fun sp hsp => serializations_roundtrip d hphf p hg hno v hv sp hsp
+
+/-! non-vacuity: `exampleEnum` of C01 (ci enum, snake_case) satisfies the hypotheses -/
+example : parse exampleEnum (canonical exampleEnum { ident := [82, 101, 100] }) = .ok (.ok [82, 101, 100] []) := by rfl
+
 end Strum
